@@ -78,6 +78,31 @@ def run(prog):
                         "stops when stored.psl < walked distance" if cmp_ok else
                         "early-exit test of the %s is %s; it must be the strict `stored.psl < walked distance` that "
                         "insertion maintains" % (name, f["cmp"])))
+    # the home slot depends on self.cap, which grow() changes: it must be computed after the growth check
+    te_i = ins.terms
+    grow_bbs = [cs.bb for cs in te_i.calls if cs.callee.name == "grow"]
+    home_bbs = []
+    for bi, b in enumerate(ins.blocks):
+        for st in b["stmts"]:
+            if st["k"] == "assign" and st["rv"]["k"] == "bin" and st["rv"]["op"] == "Rem":
+                a = st["rv"]["b"]
+                if a.get("k") in ("copy", "move") and any(e.get("name") == "cap" for e in a["place"]["proj"]) or \
+                        (a.get("k") in ("copy", "move") and ins.local_name(a["place"]["l"]) is None and
+                         "cap" in show(te_i.state_out.get(bi, {}).get(a["place"]["l"], ()))):
+                    # only the computation that seeds the probe (outside the loop)
+                    if not any(bi in body for body in ins.cfg.loop_headers.values()):
+                        home_bbs.append(bi)
+    errs = []
+    if not grow_bbs or not home_bbs:
+        errs.append("growth call or home-slot computation not found (%d/%d)" % (len(grow_bbs), len(home_bbs)))
+    else:
+        for hb in home_bbs:
+            for gb in grow_bbs:
+                if ins.cfg.can_reach(hb, gb):
+                    errs.append("the home slot `hash % cap` is computed before the table may grow: the request that triggers a "
+                                "growth probes the doubled table from a slot of the old capacity (node duplicated or lost)")
+    out.append(inst("RH", "%s:home-after-grow" % ins.npath, VIOLATION if errs else OK, ins, None,
+                    "; ".join(sorted(set(errs))) if errs else "home slot is computed after the growth check"))
     ok = fi["cmp"] == fg["cmp"] and fi["home"] == fg["home"] and fi["step"] == fg["step"]
     out.append(inst("RH", "%s:siblings-agree" % T, OK if ok else VIOLATION, get, None,
                     "insert and lookup walk the same probe sequence with the same exit test" if ok else
